@@ -76,6 +76,8 @@ def build(case, which):
     for d in ("D1", "D2"):
         if d in used or (pair and d in pair):
             c = comps()
+            if d == "D2" and case.get("reverse_d2"):
+                c = c[:2] + c[2:][::-1]    # same measures declared in the other order
             rows = [{names["I1"]: r["I1"], names["I2"]: r["I2"], names["A"]: r["A"], names["B"]: r["B"]} for r in case["rows"][d]]
             dss.append(eng.structure(names[d], c)); dps[names[d]] = eng.frame(c, rows)
     back = {v: BASE[k] for k, v in names.items()}
@@ -129,7 +131,7 @@ def case_strategy():
             keys = draw(st.lists(st.tuples(st.sampled_from([1, 2, 3]), st.sampled_from(["a", "b"])), min_size=1, max_size=5, unique=True))
             # values distinct per (dataset, component, row): A in 1.., B in 50.. so that a swap of columns is visible
             rows[d] = [{"I1": a, "I2": b, "A": float(base + 1 + i), "B": float(base + 50 + 2 * i)} for i, (a, b) in enumerate(keys)]
-        return dict(template=template, site=site, rows=rows)
+        return dict(template=template, site=site, rows=rows, reverse_d2=draw(st.booleans()))
     return gen()
 
 
@@ -137,8 +139,31 @@ GROUP = {"input_measures": "input_components", "input_measures_upper": "input_co
          "dataset_names": "dataset_names", "result_names": "dataset_names", "result_vs_input": "dataset_names", "new_component": "new_component"}
 
 
+def sa_outcome(script, S, dps, back):
+    """semantic_analysis outcome with names mapped back: ('ok', {result: sorted components}) | ('vtl', code) | ('raw', type)"""
+    from vtlengine import semantic_analysis
+    from vtlengine.Exceptions import VTLEngineException
+    try:
+        res = semantic_analysis(script=script, data_structures=S)
+    except VTLEngineException as e:
+        return ("vtl", e.args[1] if len(e.args) > 1 else type(e).__name__, str(e)[:160])
+    except Exception as e:  # noqa
+        return ("raw", type(e).__name__, str(e)[:160])
+    out = {}
+    for name, r in res.items():
+        comps = getattr(r, "components", None)
+        out[back.get(name, name)] = sorted((back.get(n, n), c.role.name, c.data_type.__name__) for n, c in comps.items()) if comps is not None else str(getattr(r, "data_type", ""))
+    return ("ok", out, None)
+
+
 def run_case(case):
     site = GROUP.get(case["site"][0], case["site"][0])
+    if case["site"][1]:
+        sc, sv = sa_outcome(*build(case, "control")), sa_outcome(*build(case, "variant"))
+        if sc[0] == "ok" and sv[:2] != sc[:2]:
+            facts0 = dict(script=build(case, "variant")[0], site=case["site"][0], template=case["template"][0], control="ok", variant=sv[0])
+            return [("semantic:%s:%s:%s" % (site, sv[0], sv[1] if sv[0] != "ok" else "structure_differs"),
+                     "semantic_analysis with names differing only in case: %s; with really different names: %s" % (str(sv[:3])[:250], str(sc[1])[:200]))], facts0
     ctrl = outcome(*build(case, "control")) if case["site"][1] else None
     var = outcome(*build(case, "variant"))
     script = build(case, "variant")[0]
@@ -177,7 +202,7 @@ def work(seed, n):
         part.case(core.fingerprint([facts["script"], case["rows"]]), nt, sample=dict(script=facts["script"], site=facts["site"], control=facts["control"], variant=facts["variant"]) if nt and len(part.samples) < 3 else None,
                   labels=["site=" + facts["site"], "template=" + facts["template"], "control=" + facts["control"], "variant=" + facts["variant"]])
         for key, what in fails:
-            part.fail(key, dict(script=facts["script"], case=dict(template=list(case["template"]), site=[case["site"][0], list(case["site"][1] or []), list(case["site"][2] or []), list(case["site"][3] or [])], rows=case["rows"])), what)
+            part.fail(key, dict(script=facts["script"], case=dict(template=list(case["template"]), site=[case["site"][0], list(case["site"][1] or []), list(case["site"][2] or []), list(case["site"][3] or [])], rows=case["rows"], reverse_d2=case.get("reverse_d2", False))), what)
     prop()
     return part
 
@@ -196,7 +221,7 @@ def replay(ctx, path):
     d = json.load(open(path))
     c = d["case"]["case"]
     site = c["site"]
-    case = dict(template=tuple(c["template"]), site=(site[0], tuple(site[1]) or None, tuple(site[2]) or None, tuple(site[3]) or None), rows=c["rows"])
+    case = dict(template=tuple(c["template"]), site=(site[0], tuple(site[1]) or None, tuple(site[2]) or None, tuple(site[3]) or None), rows=c["rows"], reverse_d2=c.get("reverse_d2", False))
     fails, facts = run_case(case)
     print("replay:", facts); print("failures:", fails)
     return 1 if fails else 0
